@@ -409,7 +409,9 @@ pub fn check_session(s: &Session, rec: &mut CaseRec) -> Verdict {
                                 })
                                 .collect();
                             let successor = numbered.iter().map(|(k, _)| *k).filter(|k| *k > n).min();
-                            let elsewhere_ok = numbered.iter().any(|(k, t)| *k == m && (t.contains("DATA") || t.contains("DEF")));
+                            // a DATA line is blamed for an item of the wrong kind only, a DEF line for whatever
+                            // fails inside the function's body
+                            let elsewhere_ok = numbered.iter().any(|(k, t)| *k == m && ((t.contains("DATA") && e.kind == ErrKind::DataTypeMismatch) || t.contains("DEF")));
                             if successor != Some(m) && !elsewhere_ok {
                                 return Verdict::fail(
                                     "error-attributed-to-another-line",
@@ -700,7 +702,7 @@ pub fn property() -> Property {
     ];
     Property {
         id: "C01",
-        rule: "Sessions of host intents (submit line / continue n turns / reply / break / seed) mapped onto protocol-respecting host calls. structured-sessions: a grammar-generated program (INPUT/STOP allowed) typed in shuffled order, then a script of RUN / CONT / LIST / NEW / TRACE / NOTRACE / STATS / INTERNALS, immediate statements, line edits and deletions, breaks, good and bad replies, boundary seeds. hostile-sessions: boundary lines (line 18446744073709551615, subscripts 2^32-1 / 2^63-1 / 1e19, 19-40 subscripts, huge GOTO targets, extreme FOR bounds, keyword soup, statements truncated at every token, recursive DEF), spliced/truncated variants, atom soup, long lines, moderate nesting. raw-sessions: arbitrary Unicode lines and replies incl. NUL, CR, LF, form feed. boundary-lines / seeds: every boundary line in three fixed scripts, every boundary seed (exhaustive). deep-nesting: 12 nesting constructs (incl. chains of 31 DEFs each nesting a call of the previous one) x depths up to 30000 (quick) / 300000 (thorough) x {interpreter, analyzer}, each in a child process on a 1 MiB main-thread stack (ulimit -s 1024), judged by exit status. Oracle: no call panics or kills the process; after every Err the state is Idle; an error raised while the cursor stood on program line n names a line, namely n, the line after n, or a DATA / DEF line; an error that points into the statement line just typed renders that line; the error renders as nothing or exactly a source line plus a blanks-then-carets line within (one past) that line, and for numbered lines the source line equals the LIST text; break yields Idle + a BREAK record; a reply yields Running; finally PRINT 7 prints exactly 7. Non-trivial: an error followed by a successful call, or break+CONT, a reply, NEW, or an edit after RUN; distinct by call-kind/outcome sequence.",
+        rule: "Sessions of host intents (submit line / continue n turns / reply / break / seed) mapped onto protocol-respecting host calls. structured-sessions: a grammar-generated program (INPUT/STOP allowed) typed in shuffled order, then a script of RUN / CONT / LIST / NEW / TRACE / NOTRACE / STATS / INTERNALS, immediate statements, line edits and deletions, breaks, good and bad replies, boundary seeds. hostile-sessions: boundary lines (line 18446744073709551615, subscripts 2^32-1 / 2^63-1 / 1e19, 19-40 subscripts, huge GOTO targets, extreme FOR bounds, keyword soup, statements truncated at every token, recursive DEF), spliced/truncated variants, atom soup, long lines, moderate nesting. raw-sessions: arbitrary Unicode lines and replies incl. NUL, CR, LF, form feed. boundary-lines / seeds: every boundary line in three fixed scripts, every boundary seed (exhaustive). deep-nesting: 12 nesting constructs (incl. chains of 31 DEFs each nesting a call of the previous one) x depths up to 30000 (quick) / 300000 (thorough) x {interpreter, analyzer}, each in a child process on a 1 MiB main-thread stack (ulimit -s 1024), judged by exit status. Oracle: no call panics or kills the process; after every Err the state is Idle; an error raised while the cursor stood on program line n names a line, namely n, the line after n, a DEF line, or - for a DATA item of the wrong kind - a DATA line; an error that points into the statement line just typed renders that line; the error renders as nothing or exactly a source line plus a blanks-then-carets line within (one past) that line, and for numbered lines the source line equals the LIST text; break yields Idle + a BREAK record; a reply yields Running; finally PRINT 7 prints exactly 7. Non-trivial: an error followed by a successful call, or break+CONT, a reply, NEW, or an edit after RUN; distinct by call-kind/outcome sequence.",
         assumptions: vec![
             "native-stack exhaustion is decided for the harness build profile (opt-level 2, overflow checks on) on a 1 MiB main-thread stack: the WASM build's default stack, and in this build roughly equivalent to a debug build on the CLI's 8 MiB main thread",
             "in-process workers run on 256 MiB stacks so that only the child-process battery judges stack exhaustion",
